@@ -55,7 +55,8 @@ Section C12.
     match m with
     | ListJson => v_listjson_dry v
     | Dry => match nth_error p tid with
-             | Some t => String.eqb (t_dir t) "" || v_dry_mkdir_guard v
+             | Some t => (String.eqb (t_dir t) "" || v_dry_mkdir_guard v)
+                         && (v_dry_fail_guard v || match t_subguard t with None => true | Some _ => false end)
              | None => true
              end
     | Status | ListM | Summary => true
@@ -74,8 +75,14 @@ Section C12.
       destruct (uptodate v true now s t) as [up s1]. cbn in E. subst s1.
       destruct up; [reflexivity|].
       rewrite andb_false_r. cbn [negb andb]. rewrite andb_false_r. cbn [andb].
-      destruct (v_dry_mkdir_guard v); [reflexivity|].
-      rewrite orb_false_r in Hp. apply String.eqb_eq in Hp. rewrite Hp. reflexivity.
+      apply andb_true_iff in Hp. destruct Hp as [Hd Hg].
+      assert (Hs3 : (if v_dry_mkdir_guard v then s else mkdir s (t_dir t)) = s).
+      { destruct (v_dry_mkdir_guard v); [reflexivity|].
+        rewrite orb_false_r in Hd. apply String.eqb_eq in Hd. rewrite Hd. reflexivity. }
+      rewrite Hs3. unfold guard_ok.
+      destruct (t_subguard t) as [fl|].
+      + rewrite orb_false_r in Hg. rewrite Hg. now destruct (has_key fl (fs s)).
+      + reflexivity.
     - (* Status *)
       destruct (nth_error p tid) as [t|]; [|reflexivity].
       pose proof (uptodate_quiet v now s t) as E.
@@ -113,14 +120,15 @@ Section C12.
   Qed.
 
   Definition pure_variant (v : variant) : bool :=
-    v_dry_mkdir_guard v && v_listjson_dry v.
+    v_dry_mkdir_guard v && v_listjson_dry v && v_dry_fail_guard v.
 
   Lemma pure_variant_all : forall v p h, pure_variant v = true -> forallb (ev_pure v p) h = true.
   Proof.
-    intros v p h Hv. unfold pure_variant in Hv. apply andb_true_iff in Hv. destruct Hv as [Hg Hl].
+    intros v p h Hv. unfold pure_variant in Hv. apply andb_true_iff in Hv. destruct Hv as [Hv Hf].
+    apply andb_true_iff in Hv. destruct Hv as [Hg Hl].
     apply forallb_forall. intros [t o] _. unfold ev_pure. cbn. destruct o; auto.
     destruct m; cbn; auto.
-    destruct (nth_error p tid); auto. rewrite Hg. apply orb_true_r.
+    destruct (nth_error p tid); auto. rewrite Hg, Hf. now rewrite orb_true_r.
   Qed.
 
   Theorem mon_C12_repaired : forall v p h s,
@@ -178,7 +186,8 @@ End C12.
 Lemma pure_variant_cond : forall v p m tid,
   pure_variant v = true -> read_only m = true -> pure_cond v p m tid = true.
 Proof.
-  intros v p m tid Hv Hro. unfold pure_variant in Hv. apply andb_true_iff in Hv. destruct Hv as [Hg Hl].
+  intros v p m tid Hv Hro. unfold pure_variant in Hv. apply andb_true_iff in Hv. destruct Hv as [Hv Hf].
+  apply andb_true_iff in Hv. destruct Hv as [Hg Hl].
   destruct m; cbn in *; try discriminate; auto.
-  destruct (nth_error p tid); auto. rewrite Hg. apply orb_true_r.
+  destruct (nth_error p tid); auto. rewrite Hg, Hf. now rewrite orb_true_r.
 Qed.
